@@ -547,3 +547,212 @@ Example truncated_rdata_inputs :
   caa_wire_short = [1;97;0; 1;1; 0;1; 0;0;0;60; 0;1; 0] /\
   caa_wire_empty_tag = [1;97;0; 1;1; 0;1; 0;0;0;60; 0;2; 0;0].
 Proof. split; reflexivity. Qed.
+
+(* ---------------- Part B, end: the wire clause ---------------- *)
+(* The clause: for records obtained from the wire, IsDuplicate holds exactly when
+   type, class and the lower-cased uncompressed owner and RDATA octets are equal.
+   It is FALSE as it stands (refutations below and [wire_clause_truncated_rdata_refuted]
+   above); it is proved here on the records whose wire form is canonical, for
+   every record type but OPT.  Proofs in Proofs/DupOctetsProofs.v.
+
+   Vocabulary.
+   [packs_to ps v cap b]   the generated pack() of the layout ps, run on the RDATA
+                    value v in an empty buffer of cap octets with no compression
+                    map, writes exactly the octets b.
+   [lower_names ps v]  the value v with every struct field that ps packs as a
+                    domain name -- a name, a list of names, the gateway host --
+                    lower-cased (ASCII, the text form; for names from the wire
+                    this lower-cases the label octets, see
+                    [name_equal_iff_lowercased_wire_equal]); every other field
+                    is left alone ([lower_names_lowers_exactly_the_name_fields]).
+                    So the octets b with [packs_to ps (lower_names ps v) cap b] are
+                    the uncompressed RDATA octets with exactly the octets of the
+                    embedded domain names lower-cased.
+   [rr_wire ls r rd]   the RFC 1035 record: owner wire_name ls, TYPE, CLASS, TTL,
+                    RDLENGTH, RDATA rd (C01).
+   [fields_canon], [present], [values_ok], [plain_fields2], [layout_ok],
+   [sides_agree]     as in Props/C01.v.
+   [sep_ok ps]      in the layout ps a field packed as a name is packed by no other
+                    statement, the gateway type is an integer field of ps, and
+                    there is no EDNS0 option list. *)
+From Dns Require Import Model.Msg Proofs.LayoutProofs Proofs.RoundtripFieldProofs Proofs.RoundtripRRProofs Proofs.RoundtripConverseProofs
+  Proofs.DupOctetsProofs.
+
+(* what [lower_names] does to each struct field *)
+Theorem lower_names_lowers_exactly_the_name_fields :
+  forall (ps : list pfield) (v : rdata) (g : string),
+    vget (lower_names ps v) g =
+    if is_name_field ps g then option_map lower_val (vget v g) else vget v g.
+Proof. exact vget_lower. Qed.
+Print Assumptions lower_names_lowers_exactly_the_name_fields.
+
+(* every layout regenerated from zmsg.go, OPT excepted, keeps its name fields apart *)
+Theorem name_fields_are_separate_in_every_layout :
+  forallb (fun L => String.eqb (tl_name L) "OPT" || sep_ok (tl_pack L)) layouts = true.
+Proof. exact layouts_sep_ok. Qed.
+Print Assumptions name_fields_are_separate_in_every_layout.
+
+(* without a compression map, what pack() writes for a canonical value does not
+   depend on where it starts nor on the buffer length (given 320 octets of room):
+   the uncompressed RDATA octets of a value are well defined *)
+Theorem uncompressed_rdata_octets_are_position_independent :
+  forall (v : rdata) (ps : list pfield) (cap : N) (out : bytes) (st' : pn_state),
+    fields_canon v ps -> Dns.Model.Rdata.pack_fields v ps cap (st0 out) = Ok st' ->
+    exists b, st' = st0 (out ++ b) /\
+      forall (cap' : N) (out' : bytes), lenN out' + lenN b + 320 <= cap' ->
+        Dns.Model.Rdata.pack_fields v ps cap' (st0 out') = Ok (st0 (out' ++ b)).
+Proof. exact packed_octets_position_free. Qed.
+Print Assumptions uncompressed_rdata_octets_are_position_independent.
+
+(* RDATA values, any layout meeting [layout_ok] and [sep_ok] (all but OPT do): two
+   canonical, complete values agree field by field in the sense of IsDuplicate
+   ([field_agree]: names up to case) EXACTLY when their uncompressed octets, names
+   lower-cased, are equal.  Covers every field kind but the EDNS0 option list. *)
+Theorem rdata_fields_agree_iff_lowercased_octets_equal :
+  forall (ps : list pfield) (us : list ufield) (v1 v2 : rdata) (cap : N) (ln1 ln2 : bytes),
+    sides_agree ps us = true -> layout_ok [] ps = true -> sep_ok ps = true ->
+    fields_canon v1 ps -> fields_canon v2 ps -> present ps v1 -> present ps v2 ->
+    packs_to ps (lower_names ps v1) cap ln1 -> packs_to ps (lower_names ps v2) cap ln2 ->
+    ((forall p, In p ps -> field_agree p v1 v2) <-> ln1 = ln2).
+Proof. exact fields_agree_iff_octets. Qed.
+Print Assumptions rdata_fields_agree_iff_lowercased_octets_equal.
+
+(* THE WIRE CLAUSE, partial.  Full clause: for ALL records obtained from the wire,
+   IsDuplicate r1 r2 iff TYPE, CLASS, lower-cased uncompressed owner octets and
+   lower-cased uncompressed RDATA octets are equal.
+   Proved: for two records returned by UnpackRR, each under the conditions of
+   C01's [record_converse] -- owner written out in full (wire_name ls), RDLENGTH
+   not 0, unpack() ran through all its statements ([present]), canonical RDATA
+   encodings ([plain_fields2]; [values_ok]: APL addresses masked) -- and of any
+   type but OPT:
+     - the record's octets msg[off:off'] are rr_wire ls r rd where rd is what pack()
+       writes for the decoded RDATA without compression (anywhere);
+     - the decoded RDATA with its names lower-cased is packed too, to ln;
+     - IsDuplicate r1 r2 = true  <->  TYPE, CLASS equal, lower-cased owner octets
+       equal, ln1 = ln2.
+   Not covered, and why (each is a _refuted theorem below or above unless said):
+     OPT (all types of comparison: isDuplicate is return false);
+     RDLENGTH 0 and RDATA that ends early (absent fields compare as zero values);
+     type bitmaps (NSEC, NSEC3, CSYNC, NXT) with a block ending in a zero octet;
+     SVCB / HTTPS mandatory lists that are not sorted (compared and packed sorted);
+     APL addresses with bits beyond the prefix (the clause holds on the wire
+       octets, but pack() masks, so the re-packed octets say nothing);
+     not refuted, only outside the proof: compression pointers inside the owner or
+       the RDATA (the uncompressed octets are then not msg[off:off']), CAA values
+       whose text exceeds the 1025 octets packStringOctet accepts. *)
+Theorem wire_duplicate_iff_lowercased_octets_equal_partial :
+  forall (m1 : bytes) (o1 : N) (r1 : rr) (o1' : N) (L1 : tlayout) (ls1 : list label)
+         (m2 : bytes) (o2 : N) (r2 : rr) (o2' : N) (L2 : tlayout) (ls2 : list label) (cap : N),
+    wfb m1 -> unpack_rr m1 o1 = Ok (r1, o1') ->
+    find_layout layouts (rr_kind r1) = Some L1 -> rr_kind r1 <> "OPT"%string -> rr_rdlength r1 <> 0 ->
+    valid_wire ls1 = true -> o1 + lenN (wire_name ls1) <= lenN m1 ->
+    take_at m1 o1 (lenN (wire_name ls1)) = wire_name ls1 ->
+    plain_fields2 (tl_pack L1) (tl_unpack L1) [] (takeN o1' m1) (o1 + lenN (wire_name ls1) + 10) ->
+    present (tl_pack L1) (rr_data r1) -> values_ok (rr_data r1) (tl_pack L1) ->
+    wfb m2 -> unpack_rr m2 o2 = Ok (r2, o2') ->
+    find_layout layouts (rr_kind r2) = Some L2 -> rr_kind r2 <> "OPT"%string -> rr_rdlength r2 <> 0 ->
+    valid_wire ls2 = true -> o2 + lenN (wire_name ls2) <= lenN m2 ->
+    take_at m2 o2 (lenN (wire_name ls2)) = wire_name ls2 ->
+    plain_fields2 (tl_pack L2) (tl_unpack L2) [] (takeN o2' m2) (o2 + lenN (wire_name ls2) + 10) ->
+    present (tl_pack L2) (rr_data r2) -> values_ok (rr_data r2) (tl_pack L2) ->
+    65855 <= cap ->
+    exists rd1 ln1 rd2 ln2 : bytes,
+      (take_at m1 o1 (o1' - o1) = rr_wire ls1 r1 rd1 /\
+       packs_to (tl_pack L1) (rr_data r1) cap rd1 /\
+       packs_to (tl_pack L1) (lower_names (tl_pack L1) (rr_data r1)) cap ln1) /\
+      (take_at m2 o2 (o2' - o2) = rr_wire ls2 r2 rd2 /\
+       packs_to (tl_pack L2) (rr_data r2) cap rd2 /\
+       packs_to (tl_pack L2) (lower_names (tl_pack L2) (rr_data r2)) cap ln2) /\
+      (is_duplicate r1 r2 = Ok true <->
+       rr_type r1 = rr_type r2 /\ rr_class r1 = rr_class r2 /\
+       lower_bytes (wire_name ls1) = lower_bytes (wire_name ls2) /\ ln1 = ln2).
+Proof. exact wire_duplicate_iff_octets. Qed.
+Print Assumptions wire_duplicate_iff_lowercased_octets_equal_partial.
+
+(* --- where the clause fails --- *)
+(* [wire_verdict t k rd1 rd2 b]: the records a. 60 IN TYPE t with RDATA rd1 / rd2
+   ([rrw t rd]: owner 01 61 00, TYPE, CLASS 1, TTL 60, RDLENGTH, rd) are both
+   accepted by UnpackRR, consuming the whole input, as records of Go type k, and
+   IsDuplicate answers b in both directions *)
+
+(* FINDING (known: C20/wire/bitmap-encoding/trailing-zero).  NSEC, next name the
+   root: bitmap block 00 01 60 against 00 02 60 00 (a trailing zero octet): both
+   decode to the types A NS, duplicates, octets differ *)
+Theorem wire_clause_trailing_zero_bitmap_refuted :
+  wire_verdict 47 "NSEC" [0; 0; 1; 96] [0; 0; 2; 96; 0] true /\ ([0; 0; 1; 96] : bytes) <> [0; 0; 2; 96; 0].
+Proof. exact trailing_zero_bitmap_witness. Qed.
+Print Assumptions wire_clause_trailing_zero_bitmap_refuted.
+
+(* the same family: no bitmap at all against an empty block 00 01 00 *)
+Theorem wire_clause_empty_bitmap_block_refuted :
+  wire_verdict 47 "NSEC" [0] [0; 0; 1; 0] true /\ ([0] : bytes) <> [0; 0; 1; 0].
+Proof. exact empty_bitmap_block_witness. Qed.
+Print Assumptions wire_clause_empty_bitmap_block_refuted.
+
+(* FINDING (candidate C20/wire/svcb-mandatory-order; replayed on the library).
+   SVCB 1 . mandatory=port,alpn alpn=h2 port=443 against mandatory=alpn,port:
+   both accepted (the decoder does not ask for sorted mandatory keys), the value
+   is compared through pack(), which sorts: duplicates, octets differ *)
+Theorem wire_clause_svcb_mandatory_order_refuted :
+  wire_verdict 64 "SVCB" ([0; 1; 0; 0; 0; 0; 4; 0; 3; 0; 1] ++ svcb_rest) ([0; 1; 0; 0; 0; 0; 4; 0; 1; 0; 3] ++ svcb_rest) true /\
+  [0; 1; 0; 0; 0; 0; 4; 0; 3; 0; 1] ++ svcb_rest <> [0; 1; 0; 0; 0; 0; 4; 0; 1; 0; 3] ++ svcb_rest /\
+  svcb_rest = [0; 1; 0; 3; 2; 104; 50; 0; 3; 0; 2; 1; 187].
+Proof. split; [exact (proj1 svcb_mandatory_order_witness)|]. split; [exact (proj2 svcb_mandatory_order_witness)|reflexivity]. Qed.
+Print Assumptions wire_clause_svcb_mandatory_order_refuted.
+
+(* the family of [wire_clause_truncated_rdata_refuted]: CAA with RDLENGTH 0 against
+   CAA with RDATA 00 *)
+Theorem wire_clause_empty_rdata_refuted :
+  wire_verdict 257 "CAA" [] [0] true /\ ([] : bytes) <> [0].
+Proof. exact empty_rdata_witness. Qed.
+Print Assumptions wire_clause_empty_rdata_refuted.
+
+(* OPT: the same octets twice (one COOKIE option) are not duplicates *)
+Theorem wire_clause_opt_refuted : wire_verdict 41 "OPT" [0; 10; 0; 2; 1; 2] [0; 10; 0; 2; 1; 2] false.
+Proof. exact opt_same_octets_witness. Qed.
+Print Assumptions wire_clause_opt_refuted.
+
+(* [values_ok] cannot be dropped from the theorem: APL 1:10.1.1.1/8 and 1:10.0.0.0/8
+   are not duplicates (and their wire octets differ), but pack() writes 00 01 08 01 0a
+   for both *)
+Theorem repacked_octets_apl_unmasked_refuted :
+  wire_verdict 42 "APL" [0; 1; 8; 4; 10; 1; 1; 1] [0; 1; 8; 1; 10] false /\
+  match unpack_rr (rrw 42 [0; 1; 8; 4; 10; 1; 1; 1]) 0, unpack_rr (rrw 42 [0; 1; 8; 1; 10]) 0 with
+  | Ok (r1, _), Ok (r2, _) =>
+    packs_to [("Prefixes"%string, K_apl)] (rr_data r1) 70000 [0; 1; 8; 1; 10] /\
+    packs_to [("Prefixes"%string, K_apl)] (rr_data r2) 70000 [0; 1; 8; 1; 10]
+  | _, _ => False
+  end.
+Proof. exact apl_unmasked_repack_witness. Qed.
+Print Assumptions repacked_octets_apl_unmasked_refuted.
+
+(* --- non-vacuity --- *)
+(* [wire_hyps w o r o' L ls]: every hypothesis the theorem makes about one record.
+   a. 300 IN MX 10 b. (mxw_1) and A. 60 IN MX 10 B. (mxw_2) differ in name case (and
+   TTL) only: both meet the hypotheses, are duplicates, and their lower-cased RDATA
+   octets are 00 0a 01 62 00 (the second one's RDATA octets are 00 0a 01 42 00);
+   a. 60 IN MX 11 b. (mxw_3) differs from the first in one RDATA octet: not a duplicate *)
+Example wire_clause_mx_examples :
+  mxw_1 = [1;97;0; 0;15; 0;1; 0;0;1;44; 0;5; 0;10; 1;98;0] /\
+  mxw_2 = [1;65;0; 0;15; 0;1; 0;0;0;60; 0;5; 0;10; 1;66;0] /\
+  mxw_3 = [1;97;0; 0;15; 0;1; 0;0;0;60; 0;5; 0;11; 1;98;0] /\
+  exists r1 r2 r3 L,
+    wire_hyps mxw_1 0 r1 18 L [[97]] /\ wire_hyps mxw_2 0 r2 18 L [[65]] /\ wire_hyps mxw_3 0 r3 18 L [[97]] /\
+    tl_pack L = [("Preference"%string, K_u16); ("Mx"%string, K_name true)] /\
+    is_duplicate r1 r2 = Ok true /\ is_duplicate r1 r3 = Ok false /\
+    packs_to (tl_pack L) (lower_names (tl_pack L) (rr_data r1)) 70000 [0; 10; 1; 98; 0] /\
+    packs_to (tl_pack L) (lower_names (tl_pack L) (rr_data r2)) 70000 [0; 10; 1; 98; 0] /\
+    packs_to (tl_pack L) (rr_data r2) 70000 [0; 10; 1; 66; 0] /\
+    packs_to (tl_pack L) (lower_names (tl_pack L) (rr_data r3)) 70000 [0; 11; 1; 98; 0].
+Proof. repeat (split; [reflexivity|]). exact mx_wire_hyps. Qed.
+
+(* the hypotheses of [rdata_fields_agree_iff_lowercased_octets_equal] hold of the two MX values *)
+Example rdata_clause_mx_example :
+  let ps := [("Preference"%string, K_u16); ("Mx"%string, K_name true)] in
+  let us := [{| uf_name := "Preference"; uf_kind := K_u16; uf_exit := true |}; {| uf_name := "Mx"; uf_kind := K_name true; uf_exit := false |}] in
+  let v1 := [("Preference"%string, V_n 10); ("Mx"%string, V_s [98; 46])] in
+  let v2 := [("Preference"%string, V_n 10); ("Mx"%string, V_s [66; 46])] in
+  sides_agree ps us = true /\ layout_ok [] ps = true /\ sep_ok ps = true /\
+  fields_canon v1 ps /\ fields_canon v2 ps /\ present ps v1 /\ present ps v2 /\
+  packs_to ps (lower_names ps v1) 100 [0; 10; 1; 98; 0] /\ packs_to ps (lower_names ps v2) 100 [0; 10; 1; 98; 0].
+Proof. exact mx_values_hyps. Qed.
